@@ -3,6 +3,8 @@ package rsync
 import (
 	"fmt"
 	"sync"
+
+	"github.com/rqlite/rqlite/v10/internal/vhook"
 )
 
 // ErrMRSWConflict is returned when a MultiRSW operation fails.
@@ -42,9 +44,11 @@ func (r *MultiRSW) BeginRead() error {
 	r.mu.Lock()
 	defer r.mu.Unlock()
 	if r.owner != "" {
+		vhook.Trace(r, "mrsw.bread", "ok", false, "readers", r.numReaders)
 		return NewErrMRSWConflict("MSRW conflict owner: " + r.owner)
 	}
 	r.numReaders++
+	vhook.Trace(r, "mrsw.bread", "ok", true, "readers", r.numReaders)
 	return nil
 }
 
@@ -57,6 +61,7 @@ func (r *MultiRSW) BeginReadBlocking() {
 		r.cond.Wait()
 	}
 	r.numReaders++
+	vhook.Trace(r, "mrsw.breadb", "readers", r.numReaders)
 }
 
 // EndRead exits the critical section as a reader.
@@ -70,6 +75,7 @@ func (r *MultiRSW) EndRead() {
 	if r.numReaders == 0 {
 		r.cond.Broadcast()
 	}
+	vhook.Trace(r, "mrsw.eread", "readers", r.numReaders)
 }
 
 // BeginWrite attempts to enter the critical section as a writer. If a writer
@@ -81,12 +87,15 @@ func (r *MultiRSW) BeginWrite(owner string) error {
 		panic("owner cannot be empty")
 	}
 	if r.owner != "" {
+		vhook.Trace(r, "mrsw.bwrite", "ok", false, "owner", owner)
 		return NewErrMRSWConflict("MSRW conflict owner: " + r.owner)
 	}
 	if r.numReaders > 0 {
+		vhook.Trace(r, "mrsw.bwrite", "ok", false, "owner", owner)
 		return NewErrMRSWConflict(fmt.Sprintf("MSRW conflict %d readers active", r.numReaders))
 	}
 	r.owner = owner
+	vhook.Trace(r, "mrsw.bwrite", "ok", true, "owner", owner)
 	return nil
 }
 
@@ -103,6 +112,7 @@ func (r *MultiRSW) BeginWriteBlocking(owner string) {
 		r.cond.Wait()
 	}
 	r.owner = owner
+	vhook.Trace(r, "mrsw.bwriteb", "owner", owner)
 }
 
 // EndWrite exits the critical section as a writer.
@@ -114,6 +124,7 @@ func (r *MultiRSW) EndWrite() {
 	}
 	r.owner = ""
 	r.cond.Broadcast()
+	vhook.Trace(r, "mrsw.ewrite")
 }
 
 // UpgradeToWriter attempts to upgrade a read lock to a write lock. The
@@ -123,9 +134,11 @@ func (r *MultiRSW) UpgradeToWriter(owner string) error {
 	r.mu.Lock()
 	defer r.mu.Unlock()
 	if r.owner != "" {
+		vhook.Trace(r, "mrsw.upgrade", "ok", false, "owner", owner)
 		return NewErrMRSWConflict("MSRW conflict owner: " + r.owner)
 	}
 	if r.numReaders > 1 {
+		vhook.Trace(r, "mrsw.upgrade", "ok", false, "owner", owner)
 		return NewErrMRSWConflict(fmt.Sprintf("MSRW conflict %d readers active", r.numReaders))
 	}
 	if r.numReaders == 0 {
@@ -133,5 +146,6 @@ func (r *MultiRSW) UpgradeToWriter(owner string) error {
 	}
 	r.owner = owner
 	r.numReaders = 0
+	vhook.Trace(r, "mrsw.upgrade", "ok", true, "owner", owner)
 	return nil
 }
